@@ -236,8 +236,16 @@ impl MemTable {
 		let table_file_path = lsm_opts.sstable_file_path(table_id);
 		let mut bptree_entries = Vec::new();
 
+		// Build the table under a temporary name and move it into place once it
+		// is complete and synced. A retried flush reuses `table_id`, and the
+		// manifest on disk may already reference the file of the failed attempt
+		// (a manifest write can fail after its rename took effect): rewriting
+		// that file in place would leave a crash in between with a manifest
+		// that names a truncated table.
+		let tmp_file_path = table_file_path.with_extension("sst.tmp");
+
 		{
-			let file = SysFile::create(&table_file_path)?;
+			let file = SysFile::create(&tmp_file_path)?;
 			let mut table_writer = TableWriter::new(file, table_id, Arc::clone(&lsm_opts), 0); // Memtables always flush to L0
 
 			let mut iter = self.iter();
@@ -264,8 +272,9 @@ impl MemTable {
 			vlog.sync()?;
 		}
 
+		crate::vfs::open_for_sync(&tmp_file_path)?.sync_all()?;
+		std::fs::rename(&tmp_file_path, &table_file_path)?;
 		let file = crate::vfs::open_for_sync(&table_file_path)?;
-		file.sync_all()?;
 		let file: Arc<dyn File> = Arc::new(file);
 		let file_size = file.size()?;
 
